@@ -449,7 +449,7 @@ pub fn run(ctx: &mut Ctx) {
     }
 
     // ------------------------------------------------------------------ generated
-    for i in 0..ctx.n(2500, 60000) {
+    for i in 0..ctx.n(20000, 150000) {
         let h = gen_hello(&mut r, if i % 3 == 0 { Profile::Clean } else { Profile::Wide });
         emit_hello(ctx, &h);
         if i % 10 == 0 {
@@ -476,7 +476,7 @@ pub fn run(ctx: &mut Ctx) {
             emit_raw(ctx, &b);
         }
     }
-    for _ in 0..ctx.n(600, 12000) {
+    for _ in 0..ctx.n(4000, 30000) {
         let bytes = match r.below(5) {
             0 | 1 => {
                 let ty = *r.pick(&MALFORMED_TYPES);
